@@ -259,7 +259,7 @@ PROPS = {
     },
     "C17": {
         "proofs": ["ZlProofs.Props.C17"],
-        "corr": [],
+        "corr": ["names"],
         "search": ["c17"],
         "trusted_base": TB_COMMON + ["the hand-written scan classification of list-reading lints in ZlProofs/Props/C17.lean (part of the specification; totality against the extracted readers is a kernel-checked obligation)",
                                      "the extractor's loop-status facts (which statuses a lint can return from inside a range loop)"],
@@ -268,7 +268,7 @@ PROPS = {
     },
     "C20": {
         "proofs": ["ZlProofs.Props.C20"],
-        "corr": [],
+        "corr": ["names"],
         "search": ["c20"],
         "trusted_base": TB_COMMON + ["the pair table in ZlProofs/Props/C20.lean and harness/pairs.go (transcribed from the property)"],
         "assumptions": [],
@@ -380,11 +380,11 @@ CLAIMS["C15"] = {"technique": "Lean 4 proof of the dispatch / format-override / 
     "note": "Partial: process behaviour is observed, not proved."}
 
 CLAIMS["C17"] = {"technique": "Lean 4 proof (permutation invariance of the four scan classes) + kernel-checked classification of every list-reading lint over regenerated footprints + permutation search",
-    "text": "scan_perm: any-match, all-match, count and set-valued scans give the same verdict on every permutation of every list. Every registered lint whose regenerated footprint reads an order-bearing list field (SAN/IAN entries, extensions, EKUs, policies, RDN attributes, CRL entries) must appear in the hand-written class table (class_table_total), and a lint that can return different statuses from inside the loop must be reviewed or listed. Search: SAN/IAN entries, extensions, EKUs and policies of kit and corpus certificates permuted by DER surgery, all lints compared. Eight committed known findings (first-unparseable-name NA and the NFC lint) are excused by lint name only.",
+    "text": "scan_perm: any-match, all-match, count and set-valued scans give the same verdict on every permutation of every list; names_verdicts_perm: for the eight modelled name lints (ZlModel/Names.lean, tied by the names correspondence) order independence is a theorem about the rule body itself. Every registered lint whose regenerated footprint reads an order-bearing list field (SAN/IAN entries, extensions, EKUs, policies, RDN attributes, CRL entries) must appear in the hand-written class table (class_table_total), and a lint that can return different statuses from inside the loop must be reviewed or listed. Search: SAN/IAN entries, extensions, EKUs and policies of kit and corpus certificates permuted by DER surgery, all lints compared. Eight committed known findings (first-unparseable-name NA and the NFC lint) are excused by lint name only.",
     "note": "Partial: the body-is-a-scan step is classification + search. Known findings: 8 san-order entries in known_findings.json."}
 
 CLAIMS["C20"] = {"technique": "Lean 4 proof (element-wise agreement lifts to mirrored lists; threshold implication) + kernel checks over the regenerated registry + pair search on the real lints",
-    "text": "mirror_agree / mirror_agree_finding / threshold_implies for all lists and limits; pairs_registered and mirror_status_sets_agree decided by the kernel over the regenerated registry and status sets. Search: each SAN/IAN pair on the same GeneralNames (every kind, generated content classes incl. opaque URIs, IPv6 literals, empty and non-IA5 values), subject/issuer pairs on mirrored DNs, RFC/CABF DNS pairs, DSA and AIA pairs on the corpus, 398/397-day and 32768/64-character threshold sweeps.",
+    "text": "label_pair_agree / empty_label_pair_agree / space_pair_agree / uri_ia5_pair_agree: for four pairs both rule bodies are modelled (ZlModel/Names.lean, tied to the real lints by the names correspondence) and their agreement on the same content is a theorem for every name list; mirror_agree / mirror_agree_finding / threshold_implies for all lists and limits; pairs_registered and mirror_status_sets_agree decided by the kernel over the regenerated registry and status sets. Search: each SAN/IAN pair on the same GeneralNames (every kind, generated content classes incl. opaque URIs, IPv6 literals, empty and non-IA5 values), subject/issuer pairs on mirrored DNs, RFC/CABF DNS pairs, DSA and AIA pairs on the corpus, 398/397-day and 32768/64-character threshold sweeps.",
     "note": "Partial: element agreement searched, not proved. The SAN/IAN URI-host divergence was a genuine defect, repaired by fix: fb75916."}
 
 NOT_APPLICABLE = {}
